@@ -8,6 +8,7 @@ import (
 	"fmt"
 	"math/rand/v2"
 	"os"
+	"reflect"
 	"runtime"
 	"strings"
 	"sync"
@@ -63,6 +64,7 @@ type rec struct {
 }
 
 type world struct {
+	hookMode  int // 0 none, 1 a before-hook that panics for some events, 2 one that publishes a further event first
 	subCancel map[int]context.CancelFunc
 	shapeB    int // 0 plain struct, 1 pointer event with pointer-receiver TypeNamer, 2 value TypeNamer
 	kind      string
@@ -87,6 +89,36 @@ func (w *world) newBus() {
 		opts = append(opts, ebu.WithSubscriptionStore(stores.WrapSub(w.subMem, w.faults)))
 	case w.under.Sub == nil:
 		panic("store without subscription store")
+	}
+	if w.hookMode != 0 {
+		// a before-publish hook that vetoes some events by panicking (mode 1), or that publishes a
+		// further event of the same type before the one being published (mode 2)
+		opts = append(opts, ebu.WithBeforePublish(func(_ reflect.Type, e any) {
+			id, typ := -1, -1
+			switch x := e.(type) {
+			case tA:
+				id, typ = x.ID, 0
+			case tB:
+				id, typ = x.ID, 1
+			case *tBP:
+				id, typ = x.ID, 1
+			case tBN:
+				id, typ = x.ID, 1
+			case tC:
+				id, typ = x.ID, 2
+			}
+			if id < 0 || w.faults.IsDead() {
+				return
+			}
+			switch {
+			case w.hookMode == 1 && id%5 == 0:
+				panic("c12: the hook rejects this event")
+			case w.hookMode == 2 && id%4 == 0 && w.nestDepth == 0 && w.inSub < 0:
+				w.nestDepth++
+				w.publish(typ, false)
+				w.nestDepth--
+			}
+		}))
 	}
 	w.bus = ebu.New(opts...)
 	w.subbed = map[int]bool{}
@@ -118,26 +150,34 @@ func (w *world) publish(typ int, foreign bool) {
 	}
 	// appends of this publish are harvested right after it (single goroutine)
 	before := len(w.faults.Snapshot())
-	switch typ {
-	case 0:
-		ebu.Publish(w.bus, tA{id})
-	case 1:
-		switch w.shapeB {
+	func() {
+		defer func() {
+			// a hook that rejects the event by panicking: the publisher carries on
+			if r := recover(); r != nil && w.hookMode != 1 {
+				panic(r)
+			}
+		}()
+		switch typ {
+		case 0:
+			ebu.Publish(w.bus, tA{id})
 		case 1:
-			ebu.Publish(w.bus, &tBP{id})
-		case 2:
-			ebu.Publish(w.bus, tBN{id})
+			switch w.shapeB {
+			case 1:
+				ebu.Publish(w.bus, &tBP{id})
+			case 2:
+				ebu.Publish(w.bus, tBN{id})
+			default:
+				ebu.Publish(w.bus, tB{id})
+			}
 		default:
-			ebu.Publish(w.bus, tB{id})
+			ebu.Publish(w.bus, tC{id})
 		}
-	default:
-		ebu.Publish(w.bus, tC{id})
-	}
+	}()
 	ops := w.faults.Snapshot()
 	for _, op := range ops[before:] {
-		if op.Kind == "append" && !op.Dead {
-			// the first append after the call began is this publish's own (persistence precedes
-			// dispatch); later ones belong to publishes made from inside its handlers
+		// this publish's own append carries its id (appends of publishes made from inside its hooks
+		// and handlers carry theirs)
+		if op.Kind == "append" && !op.Dead && strings.Contains(op.Arg, fmt.Sprintf(`{"ID":%d}`, id)) {
 			if !op.Err {
 				w.log = append(w.log, rec{K: "append", EID: id, T: typ, Off: op.Res, OK: true, Epoch: w.epoch, Fgn: foreign})
 			}
@@ -219,6 +259,7 @@ func execute(kind, scratch string, steps []step, f faultSpec) (*result, error) {
 	w, err := openWorld(kind, scratch)
 	if w != nil {
 		w.shapeB = len(steps) % 3
+		w.hookMode = (len(steps) / 3) % 3
 	}
 	if err != nil {
 		return nil, err
